@@ -194,6 +194,7 @@ func vfC16Run(c vfC16Case, withReq bool) *vfC16Obs {
 	// delivered was a good frame that has been processed completely: a snapshot request that starts and ends
 	// inside one such window has no excuse to fail
 	var quiet, quietSeq int64
+	var quietNum int64 // the processor's frame number during the quiet window
 	var stop int32
 	var fail atomic.Value
 	setFail := func(s string) {
@@ -256,12 +257,16 @@ func vfC16Run(c vfC16Case, withReq bool) *vfC16Obs {
 							need := atomic.LoadInt64(&completedValue)
 							over := atomic.LoadInt32(&inFlight)
 							q1 := atomic.LoadInt64(&quiet)
+							qn := atomic.LoadInt64(&quietNum)
 							arg := -1
 							if rq.K == vfRqSnapL {
 								arg = last
 							}
 							f, err := takeSnapshot(arg)
 							if err != nil || f == nil {
+								if q1 != 0 && q1 == atomic.LoadInt64(&quiet) && rq.K == vfRqSnapL && arg >= 0 && int64(uint32(arg)) != qn {
+									setFail(fmt.Sprintf("TakeSnapshot(%d) failed (%v) although the most recent completely processed frame has number %d, nothing had arrived since and the sender was waiting: a frame newer than the one the client holds was there to be returned", arg, err, qn))
+								}
 								if q1 != 0 && q1 == atomic.LoadInt64(&quiet) && rq.K == vfRqSnap {
 									setFail(fmt.Sprintf("TakeSnapshot failed (%v) although the frame with value %d of this connection had been processed completely, nothing had arrived since and the sender was waiting: a whole frame was there to be returned", err, need))
 								}
@@ -424,6 +429,11 @@ func vfC16Run(c vfC16Case, withReq bool) *vfC16Obs {
 					close(started)
 				}
 				if prevGood {
+					mu.Lock()
+					if processor != nil {
+						atomic.StoreInt64(&quietNum, int64(processor.CurrentFrame))
+					}
+					mu.Unlock()
 					quietSeq++
 					atomic.StoreInt64(&quiet, quietSeq)
 				}
@@ -589,6 +599,6 @@ func vfRunC16(c vfC16Case) *kit.Result {
 
 func TestVF_C16(t *testing.T) {
 	kit.Drive(t, "C16", "TestVF_C16",
-		"generated schedules: 1-4 requester goroutines looping over scripts of {TakeSnapshot(-1 / last id), TakeTestRecording, CameraInfo, spin, yield, sleep} while 1-3 camera connections (reconnects, 'clear' markers, bad frames - also as the first frame of a connection, also followed by a 'clear' -, connections that die inside a frame, sender pauses at the lock-step barrier) feed uniform-valued frames of increasing value, GOMAXPROCS in {1,2,4,16}, ring capacity 1 and up; built with the race detector. Oracle: every returned snapshot is uniform (a whole frame), stays unchanged while later frames arrive (an exact copy, re-checked after the ring has wrapped), and is at least as new as the newest frame known to be completely processed when the request started; a TakeSnapshot(-1) that starts and ends while the sender waits at the barrier after a completely processed good frame must succeed; CameraInfo returns a description some camera sent; the pipeline neither stalls nor dies; continuous files equal the request-free twin and every motion file of the twin is present unchanged (extra files are 21-frame test recordings); zero race reports. Non-trivial: a snapshot was returned for a request that overlapped the processing of a frame (measured with atomics around the barrier).",
+		"generated schedules: 1-4 requester goroutines looping over scripts of {TakeSnapshot(-1 / last id), TakeTestRecording, CameraInfo, spin, yield, sleep} while 1-3 camera connections (reconnects, 'clear' markers, bad frames - also as the first frame of a connection, also followed by a 'clear' -, connections that die inside a frame, sender pauses at the lock-step barrier) feed uniform-valued frames of increasing value, GOMAXPROCS in {1,2,4,16}, ring capacity 1 and up; built with the race detector. Oracle: every returned snapshot is uniform (a whole frame), stays unchanged while later frames arrive (an exact copy, re-checked after the ring has wrapped), and is at least as new as the newest frame known to be completely processed when the request started; a TakeSnapshot(-1), or a TakeSnapshot(n) with n different from the processor's current frame number, that starts and ends while the sender waits at the barrier after a completely processed good frame must succeed; CameraInfo returns a description some camera sent; the pipeline neither stalls nor dies; continuous files equal the request-free twin and every motion file of the twin is present unchanged (extra files are 21-frame test recordings); zero race reports. Non-trivial: a snapshot was returned for a request that overlapped the processing of a frame (measured with atomics around the barrier).",
 		vfGenC16, vfRunC16)
 }
